@@ -1,3 +1,33 @@
+/-
+C02, what the capstones (`Props/C02Capstone.lean`) still excluded.
+
+1. ONE INTERLEAVED HISTORY (`quic_connection_exact_interleaved`, `_conformant`). The earlier capstone wanted all handshake
+   datagrams before all 1-RTT datagrams, and one level per phase. Here a connection is a list of datagrams `DgM`, each a
+   list of coalesced long-header packets (Initial / Handshake) optionally closed by ONE 1-RTT packet (RFC 9000 §12.2), the
+   two directions interleaved in any way: server 1-RTT data before the client's Finished, 1-RTT packets behind Handshake
+   packets in one datagram, Handshake ACKs between 1-RTT datagrams. WHAT MUST PRECEDE WHAT, for the tool:
+     * the tool derives EVERY key of the connection — Handshake, 1-RTT generation 0, Early — inside `handle_crypto_frame`,
+       at the moment its CRYPTO reassembly completes a ClientHello (with the FIRST OFFERED suite), a ServerHello or the
+       EncryptedExtensions (with the selected suite), from the key-log lines present at that moment (`afterTls`,
+       `setTlsDecryptors`); packets it cannot decrypt are dropped, never retried. So a Handshake or 1-RTT packet is
+       decrypted iff it is captured after the packet that completes the ServerHello (`HsPkOk.keys`, `ShortOk.keyed`) —
+       which the protocol gives an observer on the path: the server sends them in the same or a later datagram, the client
+       after it has received the ServerHello;
+     * while long-header packets still occur, the 1-RTT packets are in key generation 0 (`ShortOk.gen0`; RFC 9001 §6: no
+       key update before the handshake is confirmed, §4.9.2: Handshake keys are discarded then) — the history is a mixed
+       part (generation 0) followed by a 1-RTT-only part with any key updates (`Send1`). NOT covered: a Handshake packet
+       (an ACK) of one side captured after the OTHER side's first key update;
+     * coalesced packets carry the datagram's Destination Connection ID (RFC 9000 §12.2 MUST).
+   Conclusion: one exported UDP frame per DATAGRAM whose 1-RTT packet carried STREAM data (a datagram with a Handshake packet
+   and a 1-RTT packet yields one frame), payload = that data, capture order, the datagram's time and direction.
+   Proof architecture: `output_buffer` is write-only (`wo`, `stepPkt_wo` … `handleDatagram_wo`), so every datagram is
+   analysed on the state WITHOUT its output buffer, where the handshake invariant `HsSt` of the capstone holds again;
+   `step_one_rtt_keep` / `hsSt_after_short`: a generation-0 1-RTT packet preserves it; `one_turn`: the dissector loop on the
+   closing 1-RTT packet; `mix_dg_step`, `mix_feed_step`, `mix_feed_rest`; `build_congr`: the builder reads the exported
+   frames only.
+
+Core Lean only.
+-/
 import TLX.Props.C02Capstone
 set_option linter.unusedSimpArgs false
 set_option linter.unusedVariables false
@@ -975,6 +1005,37 @@ theorem quic_connection_exact_interleaved (hl : H.Lawful) (h32 : H.sha256.outLen
     exact htimes
   rw [hframes _, build_groups false _ (hdist.adjacent false)]
   exact out_tail c _
+
+/-- … with a conformant TLS 1.3 handshake (`ConfHs`): the parser hypothesis `PTrace` replaced by "the CRYPTO frames of the
+    long-header packets are, in processing order, those of `hs`" (`ptrace_of_conformant`) -/
+theorem quic_connection_exact_interleaved_conformant (hl : H.Lawful) (h32 : H.sha256.outLen = 32) (L : SealLaws Pc)
+    (hs : ConfHs) (hsok : hs.Ok) (ch sh ca sa : Bytes) (early : Option Bytes) (sel : SuiteSel)
+    (hsel : selectSuite hs.sh.cipherSuite = some sel)
+    (ho : (hashOf H sel.hash).outLen < 65536)
+    (hsa : sa.length = (hashOf H sel.hash).outLen) (hca : ca.length = (hashOf H sel.hash).outLen)
+    (kl0 : List Keylog.Key) (p0 : MainLoop.Pkt) (d0 : DgM) (itemsA : List (List Keylog.Key × MainLoop.Pkt × DgM))
+    (hkl : ∀ x ∈ (kl0, p0, d0) :: itemsA, KeylogHas x.1 hs.ch.random ch sh ca sa early)
+    (c : QConn) (hc : Fresh H Pc c) (hd0 : d0.longs ≠ [])
+    (hok : MixDgs maskFn H Pc L d0.dcid sel sh ch sa ca trk0 (d0 :: itemsA.map (·.2.2)))
+    (hins : allInsM (d0 :: itemsA.map (·.2.2)) = hs.ins)
+    (hcar : ∀ x ∈ (kl0, p0, d0) :: itemsA, CarriesM info c (DgM.wire H Pc L d0.dcid sel sh ch sa ca) x.2.1 x.2.2)
+    (hkeyed : (trk0.runM (d0 :: itemsA.map (·.2.2))).keyed = true)
+    (itemsB : List (List Keylog.Key × MainLoop.Pkt × Dg1))
+    (hcarB : ∀ x ∈ itemsB, Carries info c
+      (wireOf H Pc L sel .v1 (rfcGen (hashOf H sel.hash) sel.keyLen sa ca 0)) x.2.1 x.2.2)
+    (hsend : Send1 maskFn H Pc L sel .v1 (rfcGen (hashOf H sel.hash) sel.keyLen sa ca 0)
+      (quicHp (hashOf H sel.hash) ca sel.keyLen) (quicHp (hashOf H sel.hash) sa sel.keyLen)
+      (chachaOf (trk0.runM (d0 :: itemsA.map (·.2.2))).core) 0 0
+      (trk0.runM (d0 :: itemsA.map (·.2.2))).tc.app (trk0.runM (d0 :: itemsA.map (·.2.2))).ts.app
+      (trk0.runM (d0 :: itemsA.map (·.2.2))).cc (trk0.runM (d0 :: itemsA.map (·.2.2))).sc (itemsB.map (·.2.2)))
+    (htimes : ((shortsOf (d0 :: itemsA.map (·.2.2)) ++ itemsB.map (·.2.2)).map fun d => (d.x.ts, d.x.srv)).Pairwise (· ≠ ·)) :
+    let QM := quicMachine maskFn H Pc info
+    let c1 := mixFeedAll QM c ((kl0, p0, d0) :: itemsA)
+    (feedAll QM c1 itemsB).raised = none ∧
+    QM.out false (feedAll QM c1 itemsB) = expectedOut c (shortsOf (d0 :: itemsA.map (·.2.2)) ++ itemsB.map (·.2.2)) :=
+  quic_connection_exact_interleaved maskFn H Pc info hl h32 L hs.ch.random hs.sh.cipherSuite ch sh ca sa early sel hsel ho hsa
+    hca kl0 p0 d0 itemsA hkl c hc hd0 hok (by rw [hins]; exact ptrace_of_conformant hs hsok) hcar hkeyed itemsB hcarB hsend
+    htimes
 
 end Interleaved
 end TLX.Props.C02Capstone3
